@@ -187,6 +187,15 @@ GROUPS = {
                    "list-with-scalar mixes and one instance per dispatch route; unwind 8"),
         "stubs": ["alloc::fmt::format"],
     },
+    "vars_equal": {
+        "pkg": "bladeink", "inject": "runtime/src/variables_state.rs", "modpath": "variables_state", "files": ["vars_equal.rs"],
+        "requires": ["fn val_equal(&self, val: &Value, default_val: &Value) -> bool", "&& self.val_equal(val, default_val)"],
+        "model_map": True, "panic_property": "C02",
+        "functions": ["VariablesState::val_equal", "VariablesState::new", "CallStack::new", "Container::new (empty)"],
+        "bounds": "all f32 pairs, all i32 pairs, all bool pairs, all (i32, f32, bool) triples across types; lists, strings, divert targets and variable pointers are outside",
+        "roles": {"val_equal_float": "global vs default, both Float, all f32 pairs", "val_equal_int_bool": "global vs default, Int/Int and Bool/Bool",
+                  "val_equal_cross_type": "global vs default of different scalar types"},
+    },
 }
 
 
@@ -287,7 +296,7 @@ PROPS = {
         "assumptions": ["texts are ASCII (the function works on bytes; from_utf8_unchecked is sound for ASCII)"],
     },
     "C02": {
-        "groups": {"json_value": sel_prefix("rt_int", "rt_bool"), "count_flags": sel_all, "choice_flags": sel_all, "pushpop": sel_all},
+        "groups": {"json_value": sel_prefix("rt_int", "rt_bool"), "count_flags": sel_all, "choice_flags": sel_all, "pushpop": sel_all, "vars_equal": sel_all},
         "outside": ("flows, threads, call-stack pointers, choices, the variables map, lists, eval-stack order (serde_json::Map / "
                     "Story construction not encodable); the text serialisation of serde_json::Value (to_string / from_str) is trusted"),
         "assumptions": ["serde_json::Value::to_string followed by from_str is the identity on numbers and bools (library contract)"],
